@@ -64,18 +64,16 @@ Fixpoint lex_chain_fuel (fuel : nat) (qo qc : N) (s : bytes) : option (list byte
 Definition lex_chain (qo qc : N) (s : bytes) : option (list bytes * bytes) :=
   lex_chain_fuel (S (length s)) qo qc s.
 
-(** * The one correct spelling: quote characters inside the name are doubled *)
-Fixpoint escape_ident (qc : N) (n : bytes) : bytes :=
-  match n with
-  | [] => []
-  | c :: r => if N.eqb c qc then qc :: qc :: escape_ident qc r else c :: escape_ident qc r
-  end.
-Definition quote_ident (qo qc : N) (n : bytes) : bytes := qo :: escape_ident qc n ++ [qc].
-Fixpoint quote_chain (qo qc : N) (l : list bytes) : bytes :=
+(** * The two spellings of a name between quotes.  The correct one -- quote characters inside
+    the name doubled -- is [render_ident] / [render_chain] of Qual/Builder.v (what
+    [Builder.Ident] writes since fix C16-ident-double-quote-char).  The RAW one is what it wrote
+    before the fix: *)
+Definition raw_ident (o c : N) (n : bytes) : bytes := o :: n ++ [c].
+Fixpoint raw_chain (o c : N) (l : list bytes) : bytes :=
   match l with
   | [] => []
-  | [n] => quote_ident qo qc n
-  | n :: rest => quote_ident qo qc n ++ DOT :: quote_chain qo qc rest
+  | [n] => raw_ident o c n
+  | n :: rest => raw_ident o c n ++ DOT :: raw_chain o c rest
   end.
 
 (** the text after a chain does not continue it *)
